@@ -1082,6 +1082,11 @@ impl WorldGen {
         }
         self.w.tick(1_000_000_000);
         self.w.exec(Some(3), &a, vec![Coin::new(big, lst.clone())], "unstake");
+        if self.r.chance(50) {
+            // an upgraded deployment: the pending batch was stored by a release that kept no request counter
+            self.w.ops.push("nocount".to_string());
+            self.w.sim.run_line("nocount");
+        }
         self.w.exec(Some(4), &b, vec![Coin::new(1u128, lst.clone())], "unstake");
         let v = view(&self.w.sim);
         let Some(pb) = v.batches.iter().find(|x| x.id == v.pending).cloned() else { return };
@@ -1287,6 +1292,43 @@ impl WorldGen {
             for sh in shapes {
                 self.w.tick(1_000_000_000);
                 self.w.exec(None, &admin, vec![], &format!("recover - {} {}", s_list(&sh, |x| x.to_string()), hs(&staker)));
+            }
+        }
+        // the same with refunded LST deliveries to a native-chain recipient, while the contract holds LST of a pending
+        // batch (so that a double-counted re-send would not be stopped by the bank)
+        let lst = self.s.lst();
+        let nu = self.s.native_users[0].clone();
+        let flying: Vec<u64> = self.w.chain.packets.values().filter(|p| p.state == crate::world::PState::Flight).map(|p| p.seq).collect();
+        for q in flying {
+            self.w.relay(q, "ok");
+        }
+        let have = self.w.chain.bal(&u, &lst);
+        if have > 10 {
+            self.w.tick(1_000_000_000);
+            self.w.exec(None, &u, vec![Coin::new(have / 2, lst.clone())], "unstake");
+        }
+        for k in 0..2u32 {
+            self.w.faucet(&u, D, 1_000_000);
+            self.w.tick(1_000_000_000);
+            let a = 1000u128.max(self.s.min) + self.r.u128_upto(20_000);
+            self.w.exec(Some(20 + k), &u, vec![Coin::new(a, D)], &format!("stake {} - -", hs(&nu)));
+        }
+        let flying: Vec<(u64, String)> = self.w.chain.packets.values().filter(|p| p.state == crate::world::PState::Flight).map(|p| (p.seq, p.denom.clone())).collect();
+        for (q, dn) in flying {
+            self.w.tick(1_000_000_000);
+            self.w.relay(q, if dn == lst { "err" } else { "ok" });
+        }
+        let v = view(&self.w.sim);
+        let ids: Vec<u64> = v
+            .pkts
+            .iter()
+            .filter(|p| p.receiver == nu && p.amount.denom == lst && p.status != staking::state::ibc::PacketLifecycleStatus::Sent)
+            .map(|p| p.sequence)
+            .collect();
+        if ids.len() >= 2 {
+            for sh in [vec![ids[0], ids[1], ids[0]], ids[..2].to_vec()] {
+                self.w.tick(1_000_000_000);
+                self.w.exec(None, &admin, vec![], &format!("recover - {} {}", s_list(&sh, |x| x.to_string()), hs(&nu)));
             }
         }
     }
